@@ -421,15 +421,15 @@ fn case_strategy(task: bool) -> BoxedStrategy<Case> {
         Just("none").boxed()
     };
     let invalid = prop_oneof![
-        84 => Just("none"),
-        2 => Just("args_not_object"),
-        2 => Just("missing_command"),
-        2 => Just("bad_max_bytes"),
-        2 => Just("cwd_dotdot"),
-        2 => Just("cwd_abs"),
-        2 => Just("cwd_missing"),
-        2 => Just("unsupported_tool"),
-        2 => Just("command_not_found"),
+        76 => Just("none"),
+        3 => Just("args_not_object"),
+        3 => Just("missing_command"),
+        3 => Just("bad_max_bytes"),
+        3 => Just("cwd_dotdot"),
+        3 => Just("cwd_abs"),
+        3 => Just("cwd_missing"),
+        3 => Just("unsupported_tool"),
+        3 => Just("command_not_found"),
     ];
     let surface = if task {
         prop_oneof![Just("task"), Just("task:shell")].boxed()
@@ -582,16 +582,17 @@ fn mb_split_across_writes(case: &Case, b: &Built) -> bool {
 }
 
 /// Re-read a file until it equals `want` (at most one retry after 200 ms).
-/// Returns (bytes, transient)
-fn read_stable(path: &Path, want: &[u8]) -> (Vec<u8>, bool) {
+/// Returns (bytes, transient, length seen by the first read)
+fn read_stable(path: &Path, want: &[u8]) -> (Vec<u8>, bool, usize) {
     let first = std::fs::read(path).unwrap_or_default();
     if first == want {
-        return (first, false);
+        let n = first.len();
+        return (first, false, n);
     }
     std::thread::sleep(Duration::from_millis(200));
     let second = std::fs::read(path).unwrap_or_default();
     let transient = second == want;
-    (second, transient)
+    (second, transient, first.len())
 }
 
 // ---------------------------------------------------------------------------------------------
@@ -874,7 +875,7 @@ fn run_task(case: &Case, strict: Strict) -> CaseReport {
             let auth = ctx.auth.as_ref().unwrap();
             ctx.rt.block_on(task_case(auth, case, strict, &mut rep))
         };
-        if discard || !rep.fails.is_empty() {
+        if discard {
             let _g = ctx.rt.enter();
             ctx.auth = None;
         }
@@ -1154,6 +1155,34 @@ async fn task_case(auth: &Authority, case: &Case, strict: Strict, rep: &mut Case
         }
     }
 
+    // docs: "attach/reconnect is deterministic (late subscribers see the same tail + artifact refs)":
+    // a subscriber attaching after the end gets exactly the recorded stream
+    {
+        let mut seen = 0usize;
+        let mut hit = false;
+        let (_st, payloads, _) = sse_collect(&auth.router, &events_path, Duration::from_secs(10), |p| {
+            while seen < p.len() {
+                if let Ok(v) = serde_json::from_str::<Value>(&p[seen]) {
+                    if is_terminal(&v) {
+                        hit = true;
+                    }
+                }
+                seen += 1;
+            }
+            hit
+        })
+        .await;
+        let late: Vec<Value> = payloads.iter().filter_map(|p| serde_json::from_str(p).ok()).collect();
+        if !hit {
+            rep.inconclusive("late_subscriber_saw_no_terminal_status");
+        } else if late != frames {
+            rep.fail(
+                "sse|late_subscriber_replay_differs_from_log",
+                json!({"sse_frames": late.len(), "log_frames": frames.len()}),
+            );
+        }
+    }
+
     // GET /tasks/{id} is a projection of the terminal frame
     let (ss, status) = call_json(&auth.router, Method::GET, &format!("/tasks/{task_id}"), None).await;
     if ss != StatusCode::OK {
@@ -1258,8 +1287,17 @@ async fn task_case(auth: &Authority, case: &Case, strict: Strict, rep: &mut Case
         crossed |= t > l as u64 || t > READ_SIZE || t > cap;
         let want = &full[..bs as usize];
         let path = auth.sandbox.blob_path(aid);
-        let (stored, tr1) = read_stable(&path, want);
-        transient |= tr1;
+        let (stored, tr1, first_len) = read_stable(&path, want);
+        if tr1 {
+            // the terminal frame (and the task snapshot) were written before the artifact file
+            // held all the bytes the frame reports as stored
+            transient = true;
+            rep.count("transient_task_artifact_short_after_terminal", 1);
+            rep.count("transient_task_missing_bytes", (want.len().saturating_sub(first_len)) as u64);
+            if std::env::var_os("C17_DEBUG").is_some() {
+                eprintln!("[c17] transient: stream {sname} first read {first_len} bytes, want {}", want.len());
+            }
+        }
         if stored != want {
             rep.fail(
                 "stored_output|task|differs_from_prefix_of_written_bytes",
@@ -1595,7 +1633,7 @@ async fn fg_case(case: &Case, strict: Strict, rep: &mut CaseReport) {
         if art["path"].as_str() != Some(&format!(".rip/artifacts/blobs/{id}")) {
             rep.fail(format!("artifact|{}|path", case.surface), ctx.clone());
         }
-        let (stored, tr1) = read_stable(&sb.blob_path(id), want);
+        let (stored, tr1, _first_len) = read_stable(&sb.blob_path(id), want);
         transient |= tr1;
         if sha_hex(&stored) != id {
             rep.fail(
@@ -1648,19 +1686,19 @@ fn main() {
     };
 
     let rule_tail = "non-trivial = valid command whose output crosses at least one limit (preview limit, 8 KiB read size, artifact cap) on some stream, or writes both streams with >= 2 alternations, or (tasks) is cancelled while running; distinct by case hash";
-    let n = check.cases(520, 10_400);
+    let n = check.cases(6_000, 120_000);
     check.group(
         "task",
         &format!("background pipes task through the real router: byte plan (content kind x total around {{0, preview limit, 8 KiB, 16 KiB, cap, 64 KiB, limit+8 KiB}} +-1 x write cuts x stdout/stderr merge order x pauses x exit code) x max_bytes x artifact_max_bytes x cancel moment x invalid-request kind x page plans; {rule_tail}"),
-        GroupOpts { cases: n, ..Default::default() },
+        GroupOpts { cases: n, max_shrink_iters: 300, ..Default::default() },
         || case_strategy(true),
         move |c: &Case| run_task(c, strict),
     );
-    let n = check.cases(420, 8_400);
+    let n = check.cases(4_000, 80_000);
     check.group(
         "fg",
         &format!("foreground bash/shell tool through rip_tools::ToolRunner (registry built like rip-tools' tests, workspace = sandbox) with the same byte plans, max_bytes per call, cap through BuiltinToolConfig, then artifact_fetch page plans over the produced artifact ids; {rule_tail}"),
-        GroupOpts { cases: n, ..Default::default() },
+        GroupOpts { cases: n, max_shrink_iters: 300, ..Default::default() },
         || case_strategy(false),
         move |c: &Case| run_fg(c, strict),
     );
